@@ -282,3 +282,16 @@ func VerifC07NewExecutor(
 		keyGenerationConcurrency: keyGenerationConcurrency,
 	}
 }
+
+// VerifC07EphemeralPublicKeyMessage is generateEphemeralKeyPair of the member
+// in its initial state: the genuine first protocol message of that member.
+func (v *VerifC07Member) VerifC07EphemeralPublicKeyMessage() (
+	interface {
+		SenderID() group.MemberIndex
+		SessionID() string
+		Type() string
+	},
+	error,
+) {
+	return v.m.initializeEphemeralKeysGeneration().generateEphemeralKeyPair()
+}
